@@ -49,7 +49,7 @@ def joint_xml(i, j, jt, anchor, *, limits=True, extra=''):
 
 def render(model, *, gravity=(0.0, 0.0, -9.81), dt=0.002, collide=False, limits=True, actuators=(), option_extra='',
            joint_extra=None, geom_extra=None, body_extra=None, top_extra='', ground=False, custom=None,
-           geom_override=None):
+           geom_override=None, joints_override=None):
   """Returns MJCF for the model. `actuators`: list of dicts(kind, link, j, gear, kp, kv, ctrlrange, forcerange)."""
   links = model['links']
   kids = {}
@@ -61,7 +61,10 @@ def render(model, *, gravity=(0.0, 0.0, -9.81), dt=0.002, collide=False, limits=
     l = links[i - 1]
     sp = ' ' * ind
     out = [f'{sp}<body name="L{i}" pos="{vec(l["pos"])}" quat="{vec(l["quat"])}">']
-    if l['root'] == 'free':
+    if joints_override is not None and i in joints_override:
+      for jx in joints_override[i]:
+        out.append(sp + '  ' + jx)
+    elif l['root'] == 'free':
       out.append(f'{sp}  <freejoint name="J{i}_f"/>')
     else:
       for j, jt in enumerate(l['stack'], 1):
